@@ -113,6 +113,19 @@ LunScripts ==
            << NewReader("l", r, TRUE), call(1), ReadReact(r, 1, 77, TRUE, TRUE, FALSE),
               call(2), BusyReact(r, 2, 192), ReadReact(r, 3, 77, TRUE, TRUE, FALSE),
               call(3), BusyReact(r, 4, 195), BusyReact(r, 5, 192), ReadReact(r, 6, 77, TRUE, TRUE, FALSE) >>, "lun") : lun \in 0..3 }
+\* a BMC that answers Get Sensor Reading with a normal completion code and no data at all (some do for absent components):
+\* there is no reading in such a response - an error, on a fresh reader and after good readings alike; the next good
+\* response is converted as usual
+EmptyReact(r, j, len) ==
+  [React0 EXCEPT !.datagrams = << Dg(SessPacket(S, LE32s(j), B(MsgRspBytes(129, 5, 0, 1, r.OwnerLUN, 45, 0, [i \in 1..len |-> 100 + i])), [i \in 1..16 |-> (i + j) % 256]), [kind |-> "reading-short"]) >>]
+EmptyScripts ==
+  { LET r == Rec(lin, 0, 2, 5, 0, 0, 0, 33 + lin)
+        bad == [ReadCall("e", r, 0, TRUE, TRUE, FALSE) EXCEPT !.exp = [prop |-> "C15", rslun |-> 0, outcome |-> "errclass", errclass |-> "other", reqs |-> @.reqs]]
+        first == IF goodFirst THEN << ReadCall("e", r, 100, TRUE, TRUE, FALSE), ReadReact(r, 1, 100, TRUE, TRUE, FALSE) >> ELSE <<>>
+        j0 == Len(first) \div 2 IN
+    Script("empty-" \o ToString(lin) \o "-" \o ToString(n) \o (IF goodFirst THEN "-after" ELSE "-fresh"),
+           << NewReader("e", r, TRUE) >> \o first \o << bad, EmptyReact(r, j0 + 1, n), ReadCall("e", r, 7, TRUE, TRUE, FALSE), ReadReact(r, j0 + 2, 7, TRUE, TRUE, FALSE) >>, "empty")
+    : lin \in {0, 1, 7}, n \in {0, 1}, goodFirst \in BOOLEAN }
 \* a command that is retransmitted more often than any narrow counter can count (255 .. 300 node-busy answers) and is then
 \* answered, followed by another command: every one of the datagrams takes the next sequence number (C09), carries the
 \* same request (C06), and the first final answer is returned (C10)
@@ -125,7 +138,7 @@ LongBusyScripts ==
            << NewReader("l", r, TRUE), call(n + 1) >> \o [j \in 1..n |-> BusyReact(r, j, IF j % 7 = 0 THEN 195 ELSE 192)] \o << ReadReact(r, n + 1, 91, TRUE, TRUE, FALSE),
               call(1), ReadReact(r, n + 2, 91, TRUE, TRUE, FALSE), call(2), BusyReact(r, n + 3, 192), ReadReact(r, n + 4, 91, TRUE, TRUE, FALSE) >>, "lun")
     : lun \in {0, 2}, n \in {254, 255, 256, 257, 300} }
-Scripts == CASE Family = "sweep" -> Sweeps [] Family = "misc" -> RefusalScripts \cup FlagScripts \cup FlagHistory \cup Factors \cup ZeroScripts \cup SharedScripts \cup ReservedScripts [] Family = "lun" -> LunScripts \cup LongBusyScripts
+Scripts == CASE Family = "sweep" -> Sweeps [] Family = "misc" -> RefusalScripts \cup FlagScripts \cup FlagHistory \cup Factors \cup ZeroScripts \cup SharedScripts \cup ReservedScripts \cup EmptyScripts [] Family = "lun" -> LunScripts \cup LongBusyScripts
 Header == [header |-> TRUE, family |-> "sensor", defs |-> SessionDefs(S), stable |-> <<"SIK", "kB", "kR">>,
            session |-> SessionRecipes(S), prefixes |-> [hs |-> HandshakeSteps(S)]]
 ASSUME PrintT(<<"HEADER", ToJson(Header)>>)
